@@ -298,6 +298,12 @@ where
             stop.store(true, Ordering::SeqCst);
             break;
         }
+        if agg.watchdogs >= 25 {
+            // the run is inconclusive already (exit 2); cases that spin until the count-based
+            // watchdog fires are slow, so do not grind through the remaining ones
+            stop.store(true, Ordering::SeqCst);
+            break;
+        }
     }
     if let Some((mut tree, mut viols)) = failed {
         // shrink towards a minimal case that still shows an unknown violation
